@@ -121,13 +121,14 @@ impl ScanWithConfig {
   fn try_new(arg: ScanArg, project: Result<ProjectConfig>) -> Result<Self> {
     let overwrite = RuleOverwrite::new(&arg.overwrite)?;
     let unused_suppression_rule = unused_suppression_rule_config(&arg, &overwrite);
+    // the severity flags apply to the rules of a rule file and to inline rules as well
     let (configs, rule_trace) = if let Some(path) = &arg.rule {
       let rules = read_rule_file(path, None)?;
-      with_rule_stats(rules)?
+      with_rule_stats(overwrite.process_configs(rules)?)?
     } else if let Some(text) = &arg.inline_rules {
       let rules = from_yaml_string(text, &Default::default())
         .with_context(|| EC::ParseRule("INLINE_RULES".into()))?;
-      with_rule_stats(rules)?
+      with_rule_stats(overwrite.process_configs(rules)?)?
     } else {
       // NOTE: only query project here since -r does not need project
       let project_config = project?;
@@ -240,6 +241,7 @@ impl ScanStdin {
     } else {
       return Err(anyhow::anyhow!(EC::RuleNotSpecified));
     };
+    let rules = RuleOverwrite::new(&arg.overwrite)?.process_configs(rules)?;
     // a rule with `severity: off` is not applied, like in the file scan
     let rules = rules
       .into_iter()
